@@ -1019,6 +1019,7 @@ def parse_tree_to_objgraph(
                 # (remove all of them, not only the model with errors,
                 # since, models with errors may be included in other models)
                 remove_models_from_repositories(models, models)
+                _restore_user_classes(models)
                 raise
 
         if metamodel.textx_tools_support and type(model) not in PRIMITIVE_PYTHON_TYPES:
@@ -1113,6 +1114,18 @@ def _remove_all_affected_models_in_construction(model):
         filter(lambda x: hasattr(x, "_tx_reference_resolver"), all_affected_models)
     )
     remove_models_from_repositories(all_affected_models, models_to_be_removed)
+    _restore_user_classes(models_to_be_removed)
+
+
+def _restore_user_classes(models):
+    """
+    Each model under construction instrumented the user classes with its own
+    parser: when a load fails restore them for all models of the load, not
+    only for the model being parsed.
+    """
+    for m in models:
+        if hasattr(m, "_tx_parser"):
+            m._tx_parser._restore_user_attr_methods()
 
 
 class ReferenceResolver:
